@@ -1,5 +1,6 @@
 import RV.C16.Model
 import RV.C16.Spec
+import RV.C16.Text
 import RV.Base.Proto
 /-
   C16 driver.  One operation per line, tokens separated by blanks.
@@ -28,6 +29,11 @@ import RV.Base.Proto
                                        or `F<len>`, joined by ` ; `, then ` | <Result>` = Result.bindings at the end
     mhist <0|1> <Result> | <o|n<i>|f>* -> several live iterators: per op `O` / `R cells…` / `X` / `F<len>`, then ` | <Result>`
     const <token>               -> <token>
+
+  Text level (round g); every answer starts with `=` so that it is never empty:
+    jstr-dumps <0|1> <s>*       -> = <s>*                         pyDumpsStr (ensure_ascii = 0|1), quotes included
+    jstr-loads <s>*             -> = (ok:<s> | err:<Kind>)*       jsonLoadsStr on whole string tokens
+    jstr-spell (<s>/<k.k.k|->)* -> = <s>*                         '"' ++ jsonSpell ks s ++ '"'
 -/
 open RV RV.C16 RV.Proto
 
@@ -198,6 +204,14 @@ def decMOp (w : String) : Option MOp :=
   else if w.startsWith "n" then (w.drop 1).toNat?.map .next
   else none
 
+def decSpell (w : String) : Option (Str × List Nat) :=
+  match w.splitOn "/" with
+  | [s, ks] => do
+    let s ← decStr s
+    let ks ← if ks = "-" then some [] else (ks.splitOn ".").mapM String.toNat?
+    pure (s, ks)
+  | _ => none
+
 def withResult (ws : List String) (f : Result → String) : String :=
   match decResult ws with
   | some (r, []) => f r
@@ -277,6 +291,19 @@ def step (_ : Unit) : List String → Unit × String
         ((), " ; ".intercalate (outs.map show1) ++ " | " ++ encResult (.select vars s.force.mat))
       | none => ((), "bad-op")
     | _ => ((), "bad-op")
+  | "jstr-dumps" :: a :: ws =>
+    match ws.mapM decStr with
+    | some ss => ((), " ".intercalate ("=" :: ss.map (fun s => encStr (pyDumpsStr (a = "1") s))))
+    | none => ((), "bad-op")
+  | "jstr-loads" :: ws =>
+    match ws.mapM decStr with
+    | some ss => ((), " ".intercalate ("=" :: ss.map (fun s =>
+        match jsonLoadsStr s with | .ok x => "ok:" ++ encStr x | .error e => "err:" ++ encErr e)))
+    | none => ((), "bad-op")
+  | "jstr-spell" :: ws =>
+    match ws.mapM decSpell with
+    | some ps => ((), " ".intercalate ("=" :: ps.map (fun (s, ks) => encStr ('"' :: (jsonSpell ks s ++ ['"'])))))
+    | none => ((), "bad-op")
   | ["const", w] => ((), w)
   | _ => ((), "bad-op")
 
